@@ -377,6 +377,23 @@ pub fn cases(target: &str, thorough: bool, seed: u64) -> Vec<Case> {
                 raw.push(("json/u-escape/key".into(), format!("{{\"{}\":1}}", e).into_bytes()));
                 raw.push(("json/u-escape/unterminated".into(), format!("\"{}", e).into_bytes()));
             }
+            // many small strings in one document (memory retained per string must not grow with the document)
+            for k in [1_000usize, 10_000, 30_000] {
+                let mut a = b"[".to_vec();
+                let mut o = b"{".to_vec();
+                for i in 0..k {
+                    if i > 0 {
+                        a.push(b',');
+                        o.push(b',');
+                    }
+                    a.extend_from_slice(b"\"\"");
+                    o.extend_from_slice(format!("\"{}\":\"v\"", i).as_bytes());
+                }
+                a.push(b']');
+                o.push(b'}');
+                raw.push((format!("json/{}-empty-strings", k), a));
+                raw.push((format!("json/{}-members", k), o));
+            }
             for d in [10usize, 100, 255, 256, 257, 1000, 10_000, 200_000] {
                 raw.push((format!("json/nest[{}", d), nested(b"[", b"1", b"]", d, b"", b"")));
                 raw.push((format!("json/nest[{}-open", d), nested(b"[", b"", b"", d, b"", b"")));
